@@ -73,6 +73,37 @@ _HDR_LOOP = (
     '                    value = f"{environ[key]},{value}"\n'
     "            environ[key] = value\n"
 )
+_HDOC = '    """A request handler that implements WSGI dispatching."""\n'
+_HCLS = "class WSGIRequestHandler(BaseHTTPRequestHandler):\n"
+_HANDLE = '    def handle(self) -> None:\n        """Handles a request ignoring dropped connections."""\n'
+_SUPER_HANDLE = "        try:\n            super().handle()\n"
+_SRV_PROTO = '            handler.protocol_version = "HTTP/1.1"\n'
+
+
+_WRITE_DEF = "        def write(data: bytes) -> None:\n"
+_SPLIT = '                try:\n                    code_str, msg = status_sent.split(None, 1)\n                except ValueError:\n                    code_str, msg = status_sent, ""\n'
+
+
+def _should_chunk(bodyless: str = "(100 <= code < 200) or code in {204, 304}", head: bool = True) -> str:
+    return (
+        "        def should_chunk(code: int, names: set[str]) -> bool:\n"
+        '            if "content-length" in names:\n'
+        "                return False\n"
+        + ('            if environ["REQUEST_METHOD"] == "HEAD":\n                return False\n' if head else "")
+        + f"            if {bodyless}:\n"
+        "                return False\n"
+        '            return self.protocol_version >= "HTTP/1.1"\n'
+        "\n" + _WRITE_DEF
+    )
+
+
+_DECISION_CALL = "                if should_chunk(code, header_keys):\n"
+
+
+def _setup(*lines: str) -> tuple:
+    return (S, _HANDLE, "    def setup(self) -> None:\n" + "".join(f"        {l}\n" for l in lines) + "\n" + _HANDLE)
+
+
 _TE_TEST = '        if environ.get("HTTP_TRANSFER_ENCODING", "").strip().lower() == "chunked":\n'
 _READINTO = "    def readinto(self, buf: bytearray) -> int:  # type: ignore\n"
 _TERM_CALL = "            if self._len == 0:\n                self._skip_terminator()\n"
@@ -101,7 +132,12 @@ MUTANTS = [
     {"name": "flag-starts-true", "expect": "R19.1", "edits": [(S, "chunk_response: bool = False", "chunk_response: bool = True")]},
     {"name": "content-length-search-case-sensitive", "expect": "R19.1", "edits": [(S, '                        "content-length" in header_keys\n', '                        any(name == "content-length" for name, _ in headers_sent)\n')]},
     {"name": "status-class-local-off-by-one", "expect": "R19.1", "edits": [(S, "                        or (100 <= code < 200)\n", "                        or status_class == 1\n"), (S, "                header_keys = set()\n", "                header_keys = set()\n                status_class = (code - 1) // 100\n")]},
+    {"name": "predicate-helper-forgets-304", "expect": "R19.1", "edits": [(S, _DECISION, _DECISION_CALL), (S, _WRITE_DEF, _should_chunk("(100 <= code < 200) or code == 204"))]},
+    {"name": "predicate-helper-forgets-head", "expect": "R19.1", "edits": [(S, _DECISION, _DECISION_CALL), (S, _WRITE_DEF, _should_chunk(head=False))]},
+    {"name": "predicate-helper-result-negated", "expect": "R19.1", "edits": [(S, _DECISION, "                if not should_chunk(code, header_keys):\n"), (S, _WRITE_DEF, _should_chunk())]},
     # ---- R19.2 ------------------------------------------------------------
+    {"name": "status-local-second-token", "expect": "R19.2", "edits": [(S, _SPLIT, '                status_parts = status_sent.split(None, 1)\n                if len(status_parts) == 2:\n                    msg, code_str = status_parts\n                else:\n                    code_str, msg = status_sent, ""\n')]},
+    {"name": "status-local-from-headers", "expect": "R19.2", "edits": [(S, _SPLIT, '                status_parts = status_sent.split(None, 1)\n                code_str, msg = status_parts[0], ""\n                if len(status_parts) == 2:\n                    code_str, msg = status_parts[1], status_parts[0]\n')]},
     {"name": "size-line-before-empty-test", "expect": "R19.2", "edits": [(S, _WRITE,
         "            if chunk_response:\n"
         "                self.wfile.write(hex(len(data))[2:].encode())\n"
@@ -177,9 +213,44 @@ MUTANTS = [
     {"name": "repeated-header-overwritten", "expect": "R19.4", "edits": [(S, '                if key in environ:\n                    value = f"{environ[key]},{value}"\n', "")]},
     {"name": "one-header-name-dropped", "expect": "R19.4", "edits": [(S, "            environ[key] = value\n", '            if key != "HTTP_PROXY":\n                environ[key] = value\n')]},
     {"name": "join-tests-unprefixed-name", "expect": "R19.4", "edits": [(S, '                key = f"HTTP_{key}"\n                if key in environ:\n', '                if key in environ:\n                    pass\n                key = f"HTTP_{key}"\n                if key[5:] in environ:\n')]},
+    # ---- R19.5 ------------------------------------------------------------
+    {"name": "unbuffered-class-attribute", "expect": "R19.5", "edits": [(S, _HDOC, _HDOC + "\n    rbufsize = 0\n")]},
+    {"name": "unbuffered-through-module-constant", "expect": "R19.5", "edits": [(S, _HCLS, "_NO_BUFFER = 0\n\n\n" + _HCLS), (S, _HDOC, _HDOC + "\n    rbufsize: int = _NO_BUFFER\n")]},
+    {"name": "unbuffered-mixin-base", "expect": "R19.5", "edits": [(S, _HCLS, "class _RawRequestStream:\n    wbufsize = 0\n    rbufsize = wbufsize\n\n\nclass WSGIRequestHandler(_RawRequestStream, BaseHTTPRequestHandler):\n")]},
+    {"name": "unbuffered-on-one-platform", "expect": "R19.5", "edits": [(S, _HDOC, _HDOC + '\n    rbufsize = 0 if sys.platform == "win32" else -1\n')]},
+    {"name": "unbuffered-set-in-setup", "expect": "R19.5", "edits": [_setup("self.rbufsize = False", "super().setup()")]},
+    {"name": "unbuffered-set-by-server", "expect": "R19.5", "edits": [(S, _SRV_PROTO, _SRV_PROTO + "\n        handler.rbufsize = 0\n")]},
+    {"name": "unbuffered-setattr-by-server", "expect": "R19.5", "edits": [(S, _SRV_PROTO, _SRV_PROTO + '\n        setattr(handler, "rbufsize", 0)\n')]},
+    {"name": "unbuffered-derived-handler-namespace", "expect": "R19.5", "edits": [(S, _SRV_PROTO, _SRV_PROTO + '\n        handler = type("Handler", (handler,), {"rbufsize": 0})\n')]},
+    {"name": "rfile-remade-unbuffered", "expect": "R19.5", "edits": [_setup("super().setup()", 'self.rfile = self.connection.makefile("rb", buffering=0)')]},
+    {"name": "rfile-remade-unbuffered-local-size", "expect": "R19.5", "edits": [_setup("super().setup()", "size = 0", 'self.rfile = self.connection.makefile("rb", size)')]},
+    {"name": "rfile-raw-socketio", "expect": "R19.5", "edits": [(S, _SUPER_HANDLE, '        self.rfile = socket.SocketIO(self.connection, "rb")\n' + _SUPER_HANDLE)]},
+    {"name": "rfile-detached", "expect": "R19.5", "edits": [_setup("super().setup()", "self.rfile = self.rfile.detach()")]},
+    {"name": "rfile-raw-attribute", "expect": "R19.5", "edits": [_setup("super().setup()", "buffered = self.rfile", "self.rfile = buffered.raw")]},
+    {"name": "nonblocking-timeout-zero", "expect": "R19.5", "edits": [(S, _HDOC, _HDOC + "\n    timeout = 0\n")]},
+    {"name": "nonblocking-set-in-handle", "expect": "R19.5", "edits": [(S, _SUPER_HANDLE, "        self.connection.setblocking(False)\n" + _SUPER_HANDLE)]},
+    {"name": "nonblocking-settimeout-zero", "expect": "R19.5", "edits": [_setup("super().setup()", "self.request.settimeout(0.0)")]},
+    {"name": "raw-stream-handed-to-application", "expect": "R19.4", "edits": [(S, '"wsgi.input": self.rfile,', '"wsgi.input": self.rfile.raw,')]},
 ]
 
 TWINS = [
+    {"name": "decision-in-predicate-helper", "edits": [(S, _DECISION, _DECISION_CALL), (S, _WRITE_DEF, _should_chunk())]},
+    {"name": "decision-in-predicate-helper-respelled", "edits": [(S, _DECISION, _DECISION_CALL), (S, _WRITE_DEF, _should_chunk("code // 100 == 1 or code in (204, 304)"))]},
+    {"name": "status-split-into-local", "edits": [(S, _SPLIT, '                status_parts = status_sent.split(None, 1)\n                if len(status_parts) == 2:\n                    code_str, msg = status_parts\n                else:\n                    code_str, msg = status_sent, ""\n')]},
+    {"name": "status-first-element-of-local", "edits": [(S, _SPLIT, '                status_parts = status_sent.split(None, 1)\n                code_str = status_parts[0]\n                msg = status_parts[1] if len(status_parts) == 2 else ""\n')]},
+    {"name": "default-buffering-restated", "edits": [(S, _HDOC, _HDOC + "\n    rbufsize = -1\n    wbufsize = 0\n")]},
+    {"name": "buffer-size-named-from-io", "edits": [(S, _HDOC, _HDOC + "\n    rbufsize = io.DEFAULT_BUFFER_SIZE\n")]},
+    {"name": "buffer-size-larger", "edits": [(S, _HCLS, "_READ_BUFFER = 64 * 1024\n\n\n" + _HCLS), (S, _HDOC, _HDOC + "\n    rbufsize = _READ_BUFFER\n")]},
+    {"name": "setup-override-keeps-stream", "edits": [_setup("super().setup()", "self._t0 = None")]},
+    {"name": "setup-override-explicit-base", "edits": [_setup("BaseHTTPRequestHandler.setup(self)", "self.connection.setblocking(True)")]},
+    {"name": "rfile-remade-with-own-buffering", "edits": [_setup("super().setup()", 'self.rfile = self.connection.makefile("rb", self.rbufsize)')]},
+    {"name": "rfile-rebuffered-explicitly", "edits": [_setup("super().setup()", "self.rfile = io.BufferedReader(self.rfile.detach())")]},
+    {"name": "timeout-none-restated", "edits": [(S, _HDOC, _HDOC + "\n    timeout = None\n")]},
+    {"name": "dechunker-attribute-named-rfile", "edits": [
+        (S, "        self._rfile = rfile\n", "        self.rfile = rfile\n"),
+        (S, 'line = self._rfile.readline().decode("latin1")', 'line = self.rfile.readline().decode("latin1")'),
+        (S, "data = self._rfile.read(n)", "data = self.rfile.read(n)"),
+        (S, "terminator = self._rfile.readline()", "terminator = self.rfile.readline()")]},
     {"name": "status-guard-respelled", "edits": [(S, _DECISION,
         "                if (\n"
         '                    "content-length" not in header_keys\n'
